@@ -32,7 +32,7 @@ FAMILIES = {
                 devcfg="MC_ClientLib_C33.cfg", quick_sample=900, sim=(60, 30)),
     "C16": dict(cfgs=[("MC_ClientLib_C16.cfg", 8, 9)], devs=["RegisterReject"], devsigs=["C16/register-retransmit-rejected"], devmax=6,
                 quick_sample=600, sim=(40, 25)),
-    "C06": dict(cfgs=[("MC_ClientLib_C06.cfg", 8, 9)], devs=["SharedStore"], devsigs=["C06/pubrec-missing"], devmax=6, quick_sample=500, sim=(40, 25)),
+    "C06": dict(cfgs=[("MC_ClientLib_C06.cfg", 8, 9), ("MC_ClientLib_C06x.cfg", 9, 10, "all")], devs=["SharedStore"], devsigs=["C06/pubrec-missing"], devmax=6, quick_sample=300, sim=(40, 25)),
 }
 # client halves served from the runs of these families
 HALF = {"C06": ["C06"], "C16": ["C16"], "C23": ["C28", "C17", "C33"], "C25": ["C28", "C17"], "C18": ["C33"]}
@@ -319,7 +319,7 @@ def extra_schedules(fam):
     return out
 
 
-def select(scheds, tier, fam):
+def select(scheds, tier, fam, quick_sample=None):
     """Which schedules are executed: deviation counterexamples, walks, directed and "all" suites
     completely; of the one-per-transition suites a seeded sample in quick (2/3 maximal schedules,
     which cover every transition on their paths, 1/3 proper prefixes = silence from that point on),
@@ -327,7 +327,7 @@ def select(scheds, tier, fam):
     rnd = random.Random(vlib.seed())
     trans = [x for x in scheds if x[2] == "transition"]
     others = [x for x in scheds if x[2] != "transition"]
-    cap = FAMILIES[fam]["quick_sample"] if tier == "quick" else 14000
+    cap = (quick_sample or FAMILIES[fam]["quick_sample"]) if tier == "quick" else 14000
     if len(trans) > cap:
         bycfg = {}
         for c, h, k in trans:
@@ -349,14 +349,15 @@ def select(scheds, tier, fam):
     return trans + others
 
 
-def run_family(fam, tier, want_props):
-    """Returns dict(violations by property, gaps, coverage...)."""
+def run_family(fam, tier, want_props, quick_sample=None):
+    """Returns dict(violations by property, gaps, coverage...).  quick_sample overrides the family's sample
+    size of the quick tier (client halves of other families' properties have a smaller budget)."""
     t0 = time.time()
     binary = vlib.build_driver("cldrv")
     notes = []
     states, trans, scheds, devhits = design_and_generate(fam, tier, notes)
     t_design = time.time() - t0
-    chosen = select(scheds, tier, fam) + extra_schedules(fam)
+    chosen = select(scheds, tier, fam, quick_sample) + extra_schedules(fam)
     scs = []
     meta = {}
     # repetitions: Go map iteration order decides which of several matching handlers / names is used (C27)
@@ -601,7 +602,8 @@ def run_client_half(prop, tier):
     if tier == "quick":
         fams = fams[:1]     # one family run fits the quick budget; thorough uses all
     for fam in fams:
-        R = run_family(fam, tier, [prop])
+        # C23 (well-formedness of every datagram) rides on the C28 suite: a sample is enough in quick
+        R = run_family(fam, tier, [prop], quick_sample=500 if prop == "C23" else None)
         if R["gaps"] and prop != "C25":
             raise vlib.Inconclusive("clientlib model gap: %s %s" % (R["gaps"][0]["sig"], R["gaps"][0]["what"]))
         viols += [v for v in R["violations"] if v["sig"].startswith(prop + "/")]
